@@ -259,6 +259,51 @@ def kfa_free_case(rng, n):
     return None
 
 
+def clustered_case(rng):
+    """2-3 clusters (strongly connected, 2-3 states each, EVERY state with a self loop, so the coded triviality test accepts each
+    cluster whatever node is yielded first), joined by a few one-way edges and possibly an entry state; F = 1-2 sets, each inside ONE
+    cluster or spanning two: some clusters are fair and some are not, so an error in how the constraints are applied to the
+    SECOND, THIRD ... component (e.g. a consumed iterator, a wrong loop variable) shows up.  KF-C15-a cannot bite on clusters; an
+    entry state without self loop is a trivial SCC and is never fair by itself."""
+    k = rng.randint(2, 3)
+    clusters, n = [], 0
+    for _ in range(k):
+        sz = rng.randint(2, 3)
+        clusters.append(list(range(n, n + sz)))
+        n += sz
+    R = []
+    for c in clusters:
+        for a in c:
+            R.append((a, a))
+        for i, a in enumerate(c):
+            R.append((a, c[(i + 1) % len(c)]))
+        if len(c) == 3 and rng.random() < 0.5:
+            R.append((c[0], c[2]))
+    for i in range(k):
+        for j in range(i + 1, k):
+            if rng.random() < 0.4:
+                R.append((rng.choice(clusters[i]), rng.choice(clusters[j])))
+    states = list(range(n))
+    if rng.random() < 0.6:
+        e = n
+        states.append(e)
+        for c in rng.sample(clusters, rng.randint(1, k)):
+            R.append((e, rng.choice(c)))
+    F = []
+    for _ in range(rng.randint(1, 2)):
+        c = rng.choice(clusters)
+        P = rng.sample(c, rng.randint(1, len(c)))
+        if rng.random() < 0.25:
+            P += rng.sample(rng.choice(clusters), 1)
+        F.append(sorted(set(P)))
+    order = states[:]
+    rng.shuffle(order)
+    L = {s: sorted(a for a in ('p', 'q') if rng.random() < 0.5) for s in states}
+    Rs = R[:]
+    rng.shuffle(Rs)
+    return {'S': order, 'S0': [], 'R': Rs, 'L': L}, F
+
+
 def all_F(states, maxsets=2):
     subs = [list(c) for r in range(len(states) + 1) for c in itertools.combinations(states, r)]
     out = [[]]
@@ -789,6 +834,16 @@ def build_groups(R):
         Fs = [c[1], list(reversed(c[1])) + [list(kd['S'])], rand_F(rng, kd['S'], foreign=False)]
         groups.append({'kd': kd, 'Fs': [(F, rng.choice(KINDS)) for F in Fs], 'forms': forms})
     R.cov['kfa_free_proper_cases'] = ne
+    # (f) clustered structures: several non-trivial components, constraints that only some of them meet
+    nf = 0
+    for i in range(600 if T else 90):
+        kd0, F = clustered_case(rng)
+        kd, m = variant(rng, kd0)
+        forms = forms_for(m)[::(6 if T else 4)] + [(l, rename(noconst(f), m or {})) for l, f in small_random_formulas(rng, 1, 2)]
+        Fs = [F, list(reversed(F)), rand_F(rng, kd['S'], foreign=False)]
+        groups.append({'kd': kd, 'Fs': [(Fx, rng.choice(KINDS)) for Fx in Fs], 'forms': forms})
+        nf += 1
+    R.cov['clustered_cases'] = nf
     return groups
 
 
